@@ -708,7 +708,109 @@ def oracle_C01(inp, meta=None):
     return False, f"fake({S!r}) validates for all tried RNG outcomes"
 
 
-ORACLES.update({"C10": oracle_C10, "C11": oracle_C11, "C01": oracle_C01})
+def has_placeholder(v) -> bool:
+    if v is ...:
+        return True
+    if isinstance(v, list):
+        return any(has_placeholder(x) for x in v)
+    if isinstance(v, dict):
+        return any(has_placeholder(x) for x in v.values()) or any(k is ... for k in v)
+    return False
+
+
+def pinned(x, w) -> bool:
+    """w carries the substituted data x at the substituted positions (C04)"""
+    if isinstance(x, dict):
+        return isinstance(w, dict) and all(k in w and pinned(x[k], w[k]) for k in x)
+    if isinstance(x, list):
+        return isinstance(w, list) and len(w) == len(x) and all(pinned(a, b) for a, b in zip(x, w))
+    if isinstance(x, float) and isinstance(w, float):
+        return x == w or math.isclose(x, w) or (x != x and w != w)
+    try:
+        return bool(x == w)
+    except Exception:
+        return False
+
+
+def _substitute(S, v):
+    from d42.substitution.errors import SubstitutionError
+    try:
+        return "ok", substitute(S, v)
+    except SubstitutionError:
+        return "sub-error", None
+    except Exception as e:
+        return "other-error", e
+
+
+def _samples(R):
+    import random as _r
+    out = []
+    for name, gen, seed in _generators():
+        if seed is not None:
+            _r.seed(seed)
+        try:
+            out.append((name, R.__accept__(gen)))
+        except Exception as e:
+            out.append((name, e))
+    return out
+
+
+def oracle_C04(inp, meta=None):
+    S, v = build(inp["schema"]), build(inp["value"])
+    if has_placeholder(v):
+        raise Unreachable("value contains a ... placeholder (outside the property's domain)")
+    st, R = _substitute(S, v)
+    if st != "ok":
+        return False, f"S % v does not succeed ({st})"
+    if conforms(S, v) and (validate(R, v).has_errors() or not conforms(R, v)):
+        return True, f"v conforms to S but S % v = {R!r} rejects v={v!r}: {validate(R, v).get_errors()}"
+    ws = [build(inp["w"])] if "w" in inp else []
+    for w in ws + [v]:
+        if not validate(R, w).has_errors() and not pinned(v, w):
+            return True, f"S % v = {R!r} accepts {w!r}, which does not carry v={v!r}"
+    for name, g in _samples(R):
+        if isinstance(g, Exception):
+            return True, f"fake(S % v) raised {g!r} [{name}]; S={S!r} v={v!r} R={R!r}"
+        if not pinned(v, g):
+            return True, f"fake(S % v) = {g!r} [{name}] does not carry v={v!r}; R={R!r}"
+    return False, f"S % v = {R!r} pins v"
+
+
+def oracle_C05(inp, meta=None):
+    S, v = build(inp["schema"]), build(inp["value"])
+    if has_placeholder(v):
+        raise Unreachable("value contains a ... placeholder")
+    st, R = _substitute(S, v)
+    if st != "ok":
+        return False, f"S % v does not succeed ({st})"
+    ws = ([build(inp["w"])] if "w" in inp else []) + [v] + [g for _, g in _samples(R) if not isinstance(g, Exception)]
+    for w in ws:
+        if not validate(R, w).has_errors() and validate(S, w).has_errors():
+            return True, f"S % v = {R!r} accepts {w!r} but S = {S!r} rejects it: {validate(S, w).get_errors()}"
+    return False, f"S % v = {R!r} only narrows S = {S!r}"
+
+
+def oracle_C12(inp, meta=None):
+    S, v = build(inp["schema"]), build(inp["value"])
+    st, R = _substitute(S, v)
+    if st == "other-error":
+        return True, f"substitute({S!r}, {v!r}) raised {R!r} (not SubstitutionError)"
+    if st != "ok":
+        return False, "SubstitutionError"
+    sm = _samples(R)
+    if all(isinstance(g, Exception) or validate(R, g).has_errors() for _, g in sm):
+        return True, f"S % v = {R!r} cannot be generated from / accepts nothing it generates: {sm[0][1]!r}"
+    if not has_placeholder(v):
+        st2, R2 = _substitute(R, v)
+        if st2 != "ok":
+            return True, f"substituting v again into S % v = {R!r} fails ({st2}: {R2!r})"
+        if not (R2 == R and repr(R2) == repr(R)):
+            return True, f"(S % v) % v = {R2!r} differs from S % v = {R!r}"
+    return False, f"S % v = {R!r} is usable and idempotent"
+
+
+ORACLES.update({"C10": oracle_C10, "C11": oracle_C11, "C01": oracle_C01, "C04": oracle_C04,
+                "C05": oracle_C05, "C12": oracle_C12})
 
 
 if __name__ == "__main__":
